@@ -237,6 +237,32 @@ pub fn rustls_client_config(pki: &Pki) -> Arc<rustls::ClientConfig> {
     Arc::new(rustls::ClientConfig::builder().with_root_certificates(roots).with_no_client_auth())
 }
 
+/// client configs of the older rustls connectors of actix-tls (one trust anchor: CA1)
+pub fn rustls22_client_config(pki: &Pki) -> Arc<rustls_022::ClientConfig> {
+    use rustls_pki_types::CertificateDer;
+    let mut roots = rustls_022::RootCertStore::empty();
+    roots.add(CertificateDer::from(pki.ca1_der.clone())).unwrap();
+    Arc::new(rustls_022::ClientConfig::builder().with_root_certificates(roots).with_no_client_auth())
+}
+pub fn rustls21_client_config(pki: &Pki) -> Arc<rustls_021::ClientConfig> {
+    let mut roots = rustls_021::RootCertStore::empty();
+    roots.add(&rustls_021::Certificate(pki.ca1_der.clone())).unwrap();
+    Arc::new(rustls_021::ClientConfig::builder().with_safe_defaults().with_root_certificates(roots).with_no_client_auth())
+}
+pub fn rustls20_client_config(pki: &Pki) -> Arc<rustls_020::ClientConfig> {
+    let mut roots = rustls_020::RootCertStore::empty();
+    roots.add(&rustls_020::Certificate(pki.ca1_der.clone())).unwrap();
+    Arc::new(rustls_020::ClientConfig::builder().with_safe_defaults().with_root_certificates(roots).with_no_client_auth())
+}
+pub fn native_connector(pki: &Pki) -> tokio_native_tls::native_tls::TlsConnector {
+    use tokio_native_tls::native_tls::{Certificate, TlsConnector};
+    TlsConnector::builder()
+        .disable_built_in_roots(true)
+        .add_root_certificate(Certificate::from_der(&pki.ca1_der).unwrap())
+        .build()
+        .unwrap()
+}
+
 /// rustls client restricted to TLS 1.2 (more handshake flights than 1.3: more places to stall)
 pub fn rustls_client_config_tls12(pki: &Pki) -> Arc<rustls::ClientConfig> {
     use rustls_pki_types::CertificateDer;
